@@ -88,26 +88,37 @@ func NewValue(typ *meta.Type, v interface{}) (result val.Value, err error) {
 		return NewValue(typ.Resolve(), v)
 	case val.FmtLeafRefList:
 		// a leaf-list of references to a leaf holds a list of the leaf's type
-		target := typ.Resolve()
-		switch target.Format().Single() {
-		case val.FmtIdentityRef:
-			return toIdentRefList(target.Base(), v)
-		case val.FmtEnum:
-			return toEnumList(target.Enum(), v)
-		case val.FmtBits:
-			return toBitsList(target.Bits(), v)
-		case val.FmtUnion:
-			return toUnionList(target, v)
-		case val.FmtLeafRef:
-			return NewValue(target, v)
-		}
-		return val.Conv(target.Format().List(), v)
+		return newListOf(typ.Resolve(), v)
 	case val.FmtBitsList:
 		return toBitsList(typ.Bits(), v)
 	case val.FmtBits:
 		return toBits(typ.Bits(), v)
 	}
 	return val.Conv(typ.Format(), v)
+}
+
+// newListOf converts to a list whose items have the type of a leaf (not of a leaf-list)
+func newListOf(item *meta.Type, v interface{}) (val.Value, error) {
+	switch item.Format().Single() {
+	case val.FmtIdentityRef:
+		return toIdentRefList(item.Base(), v)
+	case val.FmtEnum:
+		return toEnumList(item.Enum(), v)
+	case val.FmtBits:
+		return toBitsList(item.Bits(), v)
+	case val.FmtLeafRef:
+		if target := item.Resolve(); target != item {
+			return newListOf(target, v)
+		}
+	case val.FmtUnion:
+		for _, member := range item.Union() {
+			if cvt, err := newListOf(member, v); err == nil && cvt != nil {
+				return cvt, nil
+			}
+		}
+		return nil, fmt.Errorf("could not convert %v to a list of any of the allowed types", v)
+	}
+	return val.Conv(item.Format().Single().List(), v)
 }
 
 func toIdentRef(bases []*meta.Identity, v interface{}) (val.IdentRef, error) {
